@@ -17,7 +17,7 @@ gn str <T> all | v,v,…                 String()                        -> s,s,
 gn strvals <T>                         StringValues()                  -> s,s,… | -
 gn parse <T> <hex>                     Parse<T>/ParseString/ParseGeneric of the string         -> ok:<v> | err
 gn parsable <Trait>*                   -parsableByTraits                                       -> ok
-gn col <T> <Trait> <dyn type> <fam>    trait column (column order); fam = ustr nstr s<bits> u<bits> none -> ok
+gn col <T> <Trait> <dyn type> <fam>    trait column (column order); fam = ustr nstr s<bits> u<bits> none | k:<basic kind> -> ok
 gn const … <form> <tval>*              trait constants of the line: s:<hex> i:<int> b:t|f
 gn trait <T> <Trait> v,v,…             accessor                        -> rendered constants
 gn ptrait <T> <Trait> <tval>           Parse<T>(typed trait constant)  -> ok:<v> | err
@@ -64,7 +64,17 @@ def unhexAux : List Char → Option (List Char)
 def unhex (w : String) : Option String :=
   if w = "-" then some "" else (unhexAux w.toList).map String.ofList
 
+def kindOfTok : String → Option BasicKind
+  | "untypedRune" => some .untypedRune
+  | "untypedInt" => some .untypedInt
+  | "untypedString" => some .untypedString
+  | "string" => some .string
+  | "bool" => some .bool
+  | _ => none
+
+/-- family token, or `k:<basic kind>` to let the model's `extractUnderlying` classify the column -/
 def famOf (w : String) : Option Family :=
+  if w.startsWith "k:" then (kindOfTok (w.drop 2).toString).map extractUnderlying else
   if w = "ustr" then some .ustr else if w = "nstr" then some .nstr else if w = "none" then some .none
   else match w.toList with
     | 's' :: r => (String.ofList r).toNat?.map Family.sint
